@@ -663,6 +663,23 @@ impl<'a> MetaStoreUpdate<'a> {
             .host
             .clone();
 
+        // The two halves of a chunk should stay on different hosts,
+        // so the host of the surviving half is the last resort.
+        let partner_host = self
+            .store
+            .clusters
+            .values()
+            .flat_map(|cluster| cluster.chunks.iter())
+            .find_map(|chunk| {
+                if chunk.proxy_addresses[0] == failed_proxy_address {
+                    Some(chunk.hosts[1].clone())
+                } else if chunk.proxy_addresses[1] == failed_proxy_address {
+                    Some(chunk.hosts[0].clone())
+                } else {
+                    None
+                }
+            });
+
         let link_count_table = link_table
             .get(&failed_proxy_host)
             .expect("consume_new_proxy: cannot find failed proxy");
@@ -670,15 +687,30 @@ impl<'a> MetaStoreUpdate<'a> {
             .iter()
             .filter(|(peer_host, _)| free_host_proxies.contains_key(*peer_host))
             .min_by(|(host1, count1), (host2, count2)| {
-                Self::second_host_cmp(
-                    host1.as_str(),
-                    **count1,
-                    host2.as_str(),
-                    **count2,
-                    &free_host_proxies,
-                )
+                let on_partner_host1 = Some(*host1) == partner_host.as_ref();
+                let on_partner_host2 = Some(*host2) == partner_host.as_ref();
+                on_partner_host1.cmp(&on_partner_host2).then_with(|| {
+                    Self::second_host_cmp(
+                        host1.as_str(),
+                        **count1,
+                        host2.as_str(),
+                        **count2,
+                        &free_host_proxies,
+                    )
+                })
             })
             .map(|(peer_host, _)| peer_host)
+            // Another proxy on the host of the failed one is still better
+            // than putting the whole chunk on a single host.
+            .filter(|peer_host| {
+                Some(*peer_host) != partner_host.as_ref()
+                    || !free_host_proxies.contains_key(&failed_proxy_host)
+            })
+            .or_else(|| {
+                free_host_proxies
+                    .get_key_value(&failed_proxy_host)
+                    .map(|(host, _)| host)
+            })
             .ok_or(MetaStoreError::NoAvailableResource)?;
 
         let peer_proxy = MetaStoreQuery::new(self.store)
